@@ -2,6 +2,8 @@
 
 from __future__ import annotations
 
+from ..vloop import texc
+
 import asyncio
 from typing import Any
 
@@ -145,7 +147,7 @@ def make(kind: str, program: str, with_callback: bool = True):
                 conn = UDPDeviceManagementConnection(GW_ADDR[0], GW_ADDR[1], local_ip="192.168.1.2", indication_callback=indications.append if with_callback else None)
             t0 = w.spawn(conn.connect(), name="harness-connect")
             loop.settle()
-            if not (t0.done() and t0.exception() is None):
+            if not (t0.done() and texc(t0) is None):
                 return [("harness:connect-failed", repr(t0))]
             results: dict[str, Any] = {}
             closed_at: list[float] = []
